@@ -340,9 +340,16 @@ impl<F: PathFetcher> PathSet<F> {
     }
 
     pub fn next_maintain(&self, now: SystemTime) -> Duration {
+        let mut next = std::cmp::min(self.internal.next_refetch, self.internal.next_idle_check);
+
+        // The active path must not outlive its expiry, even if the next refetch is further away
+        // (e.g. pushed back by the fetch failure backoff).
+        if let Some(active_expiry) = self.active_path_expiry() {
+            next = next.min(active_expiry);
+        }
+
         // If time is in the past, tick immediately
-        std::cmp::min(self.internal.next_refetch, self.internal.next_idle_check)
-            .duration_since(now)
+        next.duration_since(now)
             .unwrap_or_else(|_| Duration::from_secs(0))
     }
 
@@ -360,6 +367,15 @@ impl<F: PathFetcher> PathSet<F> {
 
         if now >= self.internal.next_refetch {
             self.fetch_and_update(now, manager).await;
+        } else if self
+            .active_path_expiry()
+            .is_some_and(|active_expiry| now >= active_expiry)
+        {
+            // The active path expired between two fetches: drop expired paths and select a new
+            // active path from the cache, so that an expired path is never handed out.
+            self.update_path_cache(vec![], now, manager);
+            self.rerank(now, manager);
+            self.maybe_update_active_path(now, manager);
         }
 
         None
@@ -494,6 +510,14 @@ impl<F: PathFetcher> PathSet<F> {
         }
 
         tracing::debug!("Completed path refetch and update");
+    }
+
+    /// Returns the expiry time of the active path, if there is one.
+    fn active_path_expiry(&self) -> Option<SystemTime> {
+        let active_path = self.shared.active_path.load();
+        let expiry = active_path.as_ref()?.0.expiration()?;
+
+        Some(SystemTime::UNIX_EPOCH + Duration::from_secs(u64::from(expiry)))
     }
 
     /// Returns the earliest expiry time among the cached paths.
